@@ -1575,6 +1575,46 @@ Plan gen_C14(std::uint64_t seed, int tier) {
     return g.p;
 }
 
+// C16: policy A is set up and updated before the threads start; the events
+// after setup_events are the script of the task that works on policy B
+Plan gen_C16(std::uint64_t seed, int tier) {
+    Gen g(seed, tier);
+    g.p.prop = "C16";
+    g.p.profile = "sched";
+    std::vector<std::string> pool = {"rel", "dbg", "ind", "map", "cind", "sdbg"};
+    g.r.shuffle(pool);
+    pool.resize(2);
+    g.p.pols = pool;
+    BasicOpts o;
+    o.max_cls = 8;
+    o.min_meth = 2;
+    o.max_meth = 4;
+    o.max_defs = 6;
+    o.p_abstract = 0.08;
+    o.max_alias = !no_alias_policy(pool[0]) && !no_alias_policy(pool[1]) &&
+            g.r.chance(0.2)
+        ? 2
+        : 1;
+    basic_world(g, o, false);
+    auto all = basic_registry(g, o, 0);
+    g.ev_load(g.order(all));
+    g.ev_update(0);
+    BasicOpts ob = o;
+    ob.min_meth = 1;
+    ob.max_meth = 2;
+    ob.slots = REF_SLOTS;
+    auto mods = build_modules(g, ob, 1);
+    HistOpts h;
+    h.b = ob;
+    h.faults = g.r.chance(0.3);
+    h.p_check = 0.6;
+    // B is loaded and updated once before the threads start
+    history(g, h, 1, mods, 2, 1);
+    g.p.setup_events = (int)g.p.events.size();
+    history(g, h, 1, mods, g.r.range(2, tier ? 10 : 5), 1);
+    return g.p;
+}
+
 } // namespace
 
 bool has_profile(const std::string& prop) {
@@ -1612,6 +1652,8 @@ Plan generate(const std::string& prop, std::uint64_t seed, int tier) {
         return gen_C10(seed, tier);
     if (prop == "C14")
         return gen_C14(seed, tier);
+    if (prop == "C16")
+        return gen_C16(seed, tier);
     if (prop == "C17")
         return gen_C17(seed, tier);
     if (prop == "C18")
